@@ -263,9 +263,10 @@ func runGuarded(t *testing.T, p Prop, scn json.RawMessage, tape *Tape) (o *Outco
 func runGuardedGen(t *testing.T, p Prop, gen func() json.RawMessage, tape *Tape) (o *Outcome, scn json.RawMessage) {
 	// No garbage collection while a run is in progress: GC work preempts
 	// goroutines and can reorder the ones woken within one scheduler step.
+	// (collections happen explicitly: before every bubble, see Bubble, and here
+	// every 50 runs for the checks that use no bubble)
 	nRuns++
 	if nRuns%50 == 0 {
-		debug.SetGCPercent(100)
 		runtime.GC()
 	}
 	debug.SetGCPercent(-1)
